@@ -13,11 +13,10 @@ RULE = ("for 16 of the 17 compiled routines: every API-reachable argument combin
 PROVED = ("all array reads of the models of restrict*, in_interval, intersect, union, diff (incl. end2[j-1]), union_isets, "
           "fix_iset, remove_nan, cross_correlogram, overlap_split are a[i]'h reads: the in-bounds proofs are checked when "
           "the definitions are elaborated (no hypothesis beyond equal lengths of starts/ends); restrict_writes_in_bounds; "
-          "threshold_safe (n>=2, samples inside the support) and threshold_oob_witness (n=1); valuefrom/count/perievent: "
-          "reads inside the per-epoch windows are a[i]'h, the window bounds are checked dynamically in the model "
-          "(ERR oob) and shown unreachable by the correspondence run only")
-NOT_PROVED = ("valuefrom_safe / count_safe / pericont_safe as theorems (window sums <= array sizes follows from "
-              "restrict_with_count's counts; stated, not yet proved); _jitperievent_trigger_average not modelled")
+          "restrictCount_counts (one counter per interval, counters add up to the number of selected samples); jitbin_safe "
+          "(jitcount / _jitbin_array, ANY input); valuefrom_safe + valuefrom_safe_on_restricted; pericont_safe; threshold_safe "
+          "(n >= 2, samples inside a canonical support) and threshold_oob_witness (n <= 1: open finding)")
+NOT_PROVED = ("_jitperievent_trigger_average has no Lean model (interpreted-vs-compiled outcome tie only)")
 ASSUMPTIONS = ["numba implements the Python text of a kernel on executions that stay in bounds and read assigned locals"]
 TRUSTED_EXTRA = ["the interpreted twin (NUMBA_DISABLE_JIT=1) is the same source text as the compiled kernel"]
 
